@@ -25,7 +25,7 @@ class Fn:
 
     def __init__(self, path, ret=None, requires=(), ensures=(), loops=None, panics=None, valid='true',
                  closures=None, hints=(), attrs=(), rewrites=(), level='L0', r3_skip=(), inherent=False, outline=False, as_impl=None, panic_inv=None,
-                 shape=None, pre_body='', decreases=None, name_as=None, generics=None, no_unwind=None,
+                 shape=None, pre_body='', decreases=None, tail=None, name_as=None, generics=None, no_unwind=None,
                  sig_sub=(), mut_params=(), float_casts=(), companion=None, rej_clause=True, impl_items=None, trait_requires=False):
         self.impl_items = impl_items
         self.trait_requires = trait_requires
@@ -51,6 +51,7 @@ class Fn:
         self.inherent = inherent            # emit a trait-impl method as an inherent method
         self.shape = shape                  # optional explicit fingerprint {'loops':n,'panics':n,'closures':n}
         self.pre_body = pre_body
+        self.tail = tail                    # (name, proof text): the body's tail expression E becomes `({ let name = E; proof {..} name })`
         self.decreases = decreases
         self.no_unwind = no_unwind if no_unwind is not False else None
         self.name_as = name_as
@@ -200,6 +201,36 @@ def req_canary(fn, head, header, idx):
     return 'proof fn canary_req_%d(%s) requires %s ensures false {} //@[canary.req.%s]' % (idx, ', '.join(out), ', '.join('(%s)' % r for r in reqs), fn.short)
 
 
+def wrap_tail(body, name, proof, path, pre=''):
+    """R31 for the tail expression of a function body `{ stmts; E }`: E is bound to `name` so that a proof block can talk about the
+    value returned.  E is found structurally (everything after the last top-level statement), so edits inside E keep the anchor."""
+    m = mask(body)
+    close = len(m.rstrip()) - 1
+    if m[0] != '{' or m[close] != '}':
+        raise AnchorError('%s: tail: body is not a block' % path)
+    depth = 0
+    start = 1
+    i = 1
+    while i < close:
+        ch = m[i]
+        if ch in '([{':
+            depth += 1
+        elif ch in ')]}':
+            depth -= 1
+            if depth == 0 and ch == '}':
+                j = skip_ws(m, i + 1, close)
+                rest = m[j:close]
+                if rest.strip() and not re.match(r'(else\b|\.|\?|[-+*/%&|^<>=]|as\b)', rest):
+                    start = i + 1
+        elif ch == ';' and depth == 0:
+            start = i + 1
+        i += 1
+    tail = body[start:close]
+    if not tail.strip():
+        raise AnchorError('%s: tail: the body has no tail expression' % path)
+    return body[:start] + '\n({ %s let %s = %s; proof { %s } %s })\n' % (pre, name, tail.strip(), proof, name) + body[close:]
+
+
 class Gen:
     def __init__(self, crate, log=None):
         self.crate = crate
@@ -316,7 +347,7 @@ class Gen:
             lines.append('#[verifier::external_body]')
         lines.append('%s%s%s %s' % (vis, head, retdecl, where))
         lines += render_contract(fn, lines, stub or outl, trait_impl=is_trait_impl)
-        if not stub and not fn.outline and not fn.sig_sub and not fn.name_as:
+        if not stub and not fn.outline and not fn.sig_sub:
             try:
                 cn = req_canary(fn, head, header, len(self.req_canaries) + 1)
             except Exception:
@@ -363,6 +394,9 @@ class Gen:
         log = self.log
         p = fn.path
         text = body
+        if fn.tail:
+            text = wrap_tail(text, fn.tail[0], fn.tail[1], p, fn.tail[2] if len(fn.tail) > 2 else '')
+            log.add('R31-tail', p, 'tail expression', 'bound to ' + fn.tail[0])
         # function-specific rewrites first (on the expanded text; each needs a justification)
         for rw in fn.rewrites:
             old, new, why = rw[0], rw[1], rw[2]
